@@ -71,6 +71,7 @@ type PathResult struct {
 	Witnesses    []Witness      `json:"witnesses,omitempty"`
 	QUnsat       int            `json:"q_unsat"`
 	QSat         int            `json:"q_sat"`
+	RetryMergeLimit int         `json:"retry_merge_limit,omitempty"`
 }
 
 type Engine struct {
@@ -104,6 +105,11 @@ type Engine struct {
 	clock    T // last symbolic instant (monotone clock)
 	mapOrder int
 	noMerge  bool
+	// merge regions entered from forking mode are numbered 1,2,...; see Request.MergeLimit
+	mergeLimit  int
+	mergeCount  int
+	regionOpen  bool // inside such a region
+	regionSpec  bool // the open region is specification code (vpure): cannot fork
 	verbose  bool
 	callDepth int
 	accOn     bool
@@ -415,9 +421,17 @@ func (e *Engine) call(fn *ssa.Function, args []Value, bind []Value) Value {
 				c := e.get(f, x.Cond).(T)
 				e.site, e.siteFn, e.siteTok = "", fn, x.Cond.Pos()
 				if !c.isC {
-					if join := postDoms(fn).ipdom[b]; !e.noMerge && join != nil && simpleRegion(fn, b, join) {
+					join := postDoms(fn).ipdom[b]
+					mergeOK, opened := false, false
+					if !e.noMerge && join != nil && simpleRegion(fn, b, join) {
+						mergeOK, opened = e.enterRegion(false)
+					}
+					if mergeOK {
 						var a0, a1 []arrival
 						func() {
+							if opened {
+								defer e.leaveRegion()
+							}
 							if !e.accOn {
 								e.accOn = true
 								e.panicAcc = tbool(false)
@@ -758,3 +772,20 @@ func rootInstanceName(fn *ssa.Function) string {
 	}
 	return r.String()
 }
+
+// enterRegion is called when forking execution is about to run a region merged.
+// ok=false: the region must be run forking instead (MergeLimit reached). opened=true: this
+// call opened a top-level region and the caller must call leaveRegion when it ends.
+func (e *Engine) enterRegion(spec bool) (ok, opened bool) {
+	if e.inPure() || e.regionOpen {
+		return true, false // nested: part of the enclosing region
+	}
+	if !spec && e.mergeLimit > 0 && e.mergeCount+1 >= e.mergeLimit {
+		return false, false
+	}
+	e.mergeCount++
+	e.regionOpen, e.regionSpec = true, spec
+	return true, true
+}
+
+func (e *Engine) leaveRegion() { e.regionOpen = false }
